@@ -54,6 +54,9 @@ func contractProps(ct *Contract) map[string]bool {
 	}
 	add(ct.NoPanicTags)
 	add(ct.ChanSafeTags)
+	if ct.AllocBound != nil {
+		add(ct.AllocBound.Tags)
+	}
 	for _, l := range ct.Loops {
 		for _, s := range l.Invs {
 			add(s.Tags)
@@ -85,7 +88,7 @@ func genVCs(w *World, db *ContractDB, ct *Contract) (res *FnResult) {
 		ct: ct, nopanic: ct.NoPanic, tags: ct.NoPanicTags, pinv: map[*ssa.BasicBlock]*pendInv{}}
 	f.root = f
 	st := &State{cond: "true", heap: map[string]int{}}
-	e.H(st, "W", "Int")
+	e.assume("(>= " + e.H(st, "W", "Int") + " 0)")
 	e.H(st, "EXCL", "(Array Int Bool)")
 	for _, p := range fn.Params {
 		srt := e.sortOf(p.Type())
@@ -123,6 +126,7 @@ func genVCs(w *World, db *ContractDB, ct *Contract) (res *FnResult) {
 	// vacuity: the preconditions must be satisfiable
 	e.items = append(e.items, item{ob: &Obligation{Name: ct.Rel + "#cover:entry", Fn: ct.Rel, Kind: "cover", Goal: "true", idx: len(e.items)}})
 	entry := st.clone()
+	f.entrySt = entry
 	f.run(st)
 	// postconditions on every return edge
 	var retConds []string
@@ -153,6 +157,9 @@ func genVCs(w *World, db *ContractDB, ct *Contract) (res *FnResult) {
 	}
 	// axioms whose spec functions are in use
 	f.addAxioms()
+	if e.declared["ptrtype"] {
+		f.ptrTypeFacts()
+	}
 	for _, it := range e.items {
 		if it.ob != nil {
 			res.Obs = append(res.Obs, it.ob)
@@ -298,7 +305,24 @@ func (f *frame) frameObligations(ct *Contract, entry *State) {
 				continue
 			}
 			h0, h1 := e.H(entry, n, e.heapSort[n]), e.H(r.st, n, e.heapSort[n])
-			goal := "(forall ((fr Int)) (=> (<= fr " + w0 + ") (= (select " + h1 + " fr) (select " + h0 + " fr))))"
+			excl := ""
+			for _, m := range ct.Modifies {
+				if strings.HasPrefix(m, "elems(") {
+					pn := m[6 : len(m)-1]
+					for _, p := range f.fn.Params {
+						if p.Name() != pn {
+							continue
+						}
+						if stp, ok := p.Type().Underlying().(*types.Slice); ok {
+							if eh, _ := f.elemHeap(stp.Elem()); eh == n {
+								excl += " (not (= fr (sarr " + f.vals[p].S + ")))"
+							}
+						}
+					}
+				}
+			}
+			e.declFun("owner", []string{"Int"}, "Int")
+			goal := "(forall ((fr Int)) (=> (and (<= (owner fr) " + w0 + ")" + excl + ") (= (select " + h1 + " fr) (select " + h0 + " fr))))"
 			e.addOb("frame", n, nil, ct.Src, r.cond, goal)
 		}
 	}
